@@ -400,6 +400,8 @@ PROPS["C11"] = {
            "RouterSocket::finalize_pipe adds exactly that pipe to the finalized set (nothing is ever removed by it), touches no parked batch, and wakes the waiters only AFTER the pipe is in the set. "
            "End of a handshake on ROUTER (unit routerident: RouterSocket::update_peer_identity, whole): when the pipe's endpoint is known the pipe's label becomes the announced identity if it is non-empty and that pipe's own placeholder otherwise, the routing map is told the same identity for the same pipe, no other label is touched; "
            "the label is written BEFORE the pipe passes the identity gate, and the pipe is finalized exactly once on every path (and no other pipe is). "
+           "Attach on ROUTER (unit routerident: RouterSocket::pipe_attached, whole): the label is the identity given at attach if non-empty, that pipe's own placeholder otherwise, and the routing map is told the same; at attach the pipe passes the identity gate ONLY with a real identity or on an inproc endpoint "
+           "(a placeholder-labelled TCP/IPC pipe stays behind the gate until its handshake ends), with the label already written; the pair invariant 'no finalized pipe without a label' is preserved. "
            "RouterMap (identity <-> connection maps, unit routermap): after add_peer / update_peer_identity the identity routes to the connection that announced it (also when the identity was already in the map: take-over), "
            "the pipe is labelled with it, the pipe's previous label (placeholder) no longer routes, every other identity and pipe entry is untouched; detaching a pipe removes its label and its identity's route "
            "unless another pipe has taken that identity over, in which case the route of the live connection is kept. "
